@@ -108,6 +108,20 @@ func (st *SplitTracker) AvailableSplits() []SourceSplitterShard {
 	return available
 }
 
+// KnownSplits are all the splits that still need to be read to their end:
+// the assigned ones and the ones that wait for their parents.
+func (st *SplitTracker) KnownSplits() []SourceSplitterShard {
+	st.mu.Lock()
+	defer st.mu.Unlock()
+
+	known := make([]SourceSplitterShard, 0, st.knownSplits.Size())
+	for _, split := range st.knownSplits.All() {
+		known = append(known, split)
+	}
+
+	return known
+}
+
 func (st *SplitTracker) AssignedSplits() []SourceSplitterShard {
 	st.mu.Lock()
 	defer st.mu.Unlock()
